@@ -10,7 +10,8 @@ mkdir -p "$D/bin" "$D/.build" "$D/evidence"
 cp /repo/go.sum "$D/h/go.sum"
 cd "$D/h"
 for pkg in $(ls -d */ | tr -d /); do
-  if ls $pkg/*_test.go >/dev/null 2>&1 && [ "$pkg" != "refimpl" ]; then
+  # e2 is built by the driver with a build overlay (tags "verif e2"); it has nothing to warm here
+  if ls $pkg/*_test.go >/dev/null 2>&1 && [ "$pkg" != "refimpl" ] && [ "$pkg" != "e2" ]; then
     # warming only: a package that does not build is reported by its own check, not here
     $GO test -c -tags verif -vet=off -o "$D/.build/$pkg.test" ./$pkg || echo "warn: $pkg does not build yet"
   fi
